@@ -35,6 +35,23 @@ class _Probed:
 PROBED = _Probed()
 
 
+class KeyTok:
+    """opaque PRNG key word: keys are never computed, only threaded; equal derivations give equal tokens"""
+    __slots__ = ("path",)
+
+    def __init__(self, path):
+        self.path = path
+
+    def __eq__(self, o):
+        return isinstance(o, KeyTok) and o.path == self.path
+
+    def __hash__(self):
+        return hash(("KeyTok", self.path))
+
+    def __repr__(self):
+        return f"Key{self.path}"
+
+
 class LazyPart:
     """real or imaginary part of a value that depends on holomorphic variables: it may only flow into the atan2 that
     forms a phase (recorded as an IR probe of the complex value itself); any other use is non-holomorphic."""
@@ -117,6 +134,9 @@ class Interp:
         if np.iscomplexobj(a):
             for idx in np.ndindex(a.shape):
                 v = a[idx]
+                if not (math.isfinite(v.real) and math.isfinite(v.imag)):
+                    out[idx] = self.wrap(qdom.opaque_fn("nonfinite_literal:" + repr(complex(v)), [], False, semantic=False))
+                    continue
                 out[idx] = self.wrap(Q((Fraction(float(v.real)), Fraction(float(v.imag)))))
         elif a.dtype == bool:
             for idx in np.ndindex(a.shape):
@@ -126,7 +146,12 @@ class Interp:
                 out[idx] = int(a[idx])
         elif np.issubdtype(a.dtype, np.floating):
             for idx in np.ndindex(a.shape):
-                out[idx] = self.wrap(Q(Fraction(float(a[idx]))))
+                v = float(a[idx])
+                if math.isfinite(v):
+                    out[idx] = self.wrap(Q(Fraction(v)))
+                else:
+                    # NaN / inf literals (fill values of out-of-bounds gathers): an opaque real that no identity can use
+                    out[idx] = self.wrap(qdom.opaque_fn("nonfinite_literal:" + repr(v), [], True, semantic=False))
         else:
             raise Unsupported(f"literal of dtype {a.dtype}")
         return out
@@ -190,7 +215,7 @@ class Interp:
                     o = o2
                 if o.shape != tuple(v.aval.shape):
                     raise Unsupported(f"{e.primitive.name}: shape {o.shape} != {v.aval.shape}")
-                if o.size and not isnum(v.aval.dtype) and not isinstance(o.reshape(-1)[0], (int, bool, SB, np.integer, np.bool_)):
+                if o.size and not isnum(v.aval.dtype) and not isinstance(o.reshape(-1)[0], (int, bool, SB, np.integer, np.bool_, KeyTok)):
                     raise Unsupported(f"{e.primitive.name}: produced {type(o.reshape(-1)[0]).__name__} for dtype {v.aval.dtype} at {_where(e)}")
                 env[v] = o
         return [read(v) if (need is None or need[k]) else None for k, v in enumerate(jaxpr.outvars)]
@@ -716,6 +741,44 @@ class Interp:
                 for j in range(n):
                     out[idx + (i, j)] = A[i][j]
         return out
+
+    # PRNG markers: keys are opaque tokens; random numbers are opaque atoms determined by (key, position)
+    def _keyid(self, k):
+        flat = tuple(k.reshape(-1).tolist())
+        if all(isinstance(x, KeyTok) for x in flat):
+            return flat
+        return tuple(("seed", int(x)) if not isinstance(x, KeyTok) else x for x in flat)
+
+    def p_srand_split(self, e, ins, p):
+        kid = self._keyid(ins[0])
+        num = p["num"]
+        out = obj((num,) + ins[0].shape)
+        for n_ in range(num):
+            for idx in np.ndindex(ins[0].shape):
+                out[(n_,) + idx] = KeyTok((kid, n_) + idx)
+        return out
+
+    def _rand(self, name, e, ins, p, contract):
+        kid = self._keyid(ins[0])
+        shape = tuple(p["shape"])
+        out = obj(shape)
+        cache = self.__dict__.setdefault("_rand_cache", {})
+        for idx in np.ndindex(shape):
+            key = (name, kid, idx)
+            if key not in cache:
+                k = qdom.ATOMS.opaque(f"{name}", is_real=True)
+                re = qdom.tz(qdom.ATOMS.sym[k][0])
+                qdom.ATOMS.facts[k] = contract(re)
+                cache[key] = Q(1, {k: 1})
+                self.__dict__.setdefault("rand_atoms", []).append((name, kid, idx, k))
+            out[idx] = self.wrap(cache[key])
+        return out
+
+    def p_srand_uniform(self, e, ins, p):
+        return self._rand("uniform", e, ins, p, lambda r: [r >= 0, r < 1])
+
+    def p_srand_normal(self, e, ins, p):
+        return self._rand("normal", e, ins, p, lambda r: [])
 
     def p_sexpm(self, e, ins, p):
         a = ins[0]
